@@ -32,6 +32,7 @@ def main():
             s = float.fromhex(c["scale"])
             r["fr_scaled"] = fr(inv * s)
             if c.get("hp"):
+                r["fr_hp"] = {"activity": "ERR constructor", "mass": "ERR constructor", "mole": "ERR constructor"}
                 h = rd.InventoryHP(cont, c["unit"])
                 if c.get("decay"):
                     h = h.decay(float.fromhex(c["decay"]), "s")
